@@ -26,7 +26,8 @@ class C19(Prop):
     def scenarios(self, ctx: Ctx):
         out = [{"state": "ON", "order": []}, {"state": "OFF", "order": []}]
         # the tables must not depend on which part of the library was imported first: fresh interpreters, several import orders
-        for order in (["bridge", "api"], ["api", "bridge"], ["device", "bridge", "api"], ["api", "device", "schedule", "bridge"], ["schedule", "bridge"]):
+        for order in (["bridge", "api"], ["api", "bridge"], ["device", "bridge", "api"], ["api", "device", "schedule", "bridge"], ["schedule", "bridge"],
+                      ["bridge", "STIR", "api"], ["STIR"]):
             out.append({"state": "ON", "order": order, "fresh": True})
         return out
 
